@@ -648,7 +648,10 @@ func (x *vc) appendOp(st *state, args []Val, resT types.Type) Val {
 	// result: same backing array if it fits, fresh otherwise
 	fresh := x.alloc(st, "appendbuf")
 	arr := x.define("apparr", sInt, ite(fits, app("sl_arr", s.T), fresh))
-	off := ite(fits, app("sl_off", s.T), "0")
+	// the offset as a named constant (an ite inside a trigger makes the solvers drop the trigger)
+	off := x.freshName("appoff")
+	x.declare(off, sInt)
+	x.assume("true", eq(off, ite(fits, app("sl_off", s.T), "0")))
 	capv := x.freshName("appcap")
 	x.declare(capv, sInt)
 	x.assume("true", and(app(">=", capv, newLen), implies(fits, eq(capv, app("sl_cap", s.T)))))
